@@ -13,138 +13,6 @@ set_option linter.unusedVariables false
 namespace Rsdns.C08
 open Rsdns Generated Spec C09
 
-/-! ### inversion of the reader's calls -/
-
-theorem data_inv {msg : Bytes} {t : RType} {r1 r2 : Reader} {m : Marker} {v : RData}
-    (h : r1.data msg t m = (.ok v, r2)) :
-    r1.cur.pos = m.rdataPos ∧ r1.done = false ∧ ∃ c2 t2, readRData t msg m.rdlen r1.cur = (.ok v, c2) ∧
-      r1.tr.sectionRead m.section_ c2.pos = .ok t2 ∧ r2 = { r1 with cur := c2, tr := t2 } := by
-  unfold Reader.data Reader.assertAt at h
-  split at h
-  · rename_i hpos
-    split at h
-    · simp at h
-    · rename_i hd
-      unfold Reader.onCur at h
-      cases hk : readRData t msg m.rdlen r1.cur with
-      | mk res c2 =>
-        simp only [hk] at h
-        obtain ⟨hres, t', hsr, hr2⟩ := finishData_ok_inv m res _ r2 v h
-        subst hres
-        exact ⟨hpos, by simpa using hd, c2, t', rfl, hsr, hr2⟩
-  · simp at h
-
-theorem dataBytes_inv {msg : Bytes} {r1 r2 : Reader} {m : Marker} {b : Bytes}
-    (h : r1.dataBytes msg m = (.ok b, r2)) :
-    r1.cur.pos = m.rdataPos ∧ r1.done = false ∧ ∃ c2 t2, CurM.slice msg m.rdlen r1.cur = (.ok b, c2) ∧
-      r1.tr.sectionRead m.section_ c2.pos = .ok t2 ∧ r2 = { r1 with cur := c2, tr := t2 } := by
-  unfold Reader.dataBytes Reader.assertAt at h
-  split at h
-  · rename_i hpos
-    split at h
-    · simp at h
-    · rename_i hd
-      unfold Reader.onCur at h
-      cases hk : CurM.slice msg m.rdlen r1.cur with
-      | mk res c2 =>
-        simp only [hk] at h
-        obtain ⟨hres, t', hsr, hr2⟩ := finishData_ok_inv m res _ r2 b h
-        subst hres
-        exact ⟨hpos, by simpa using hd, c2, t', rfl, hsr, hr2⟩
-  · simp at h
-
-theorem optRecord_inv {r1 r2 : Reader} {m : Marker} {o : Opt}
-    (h : r1.optRecord m = (.ok o, r2)) :
-    r1.cur.pos = m.rdataPos ∧ r1.done = false ∧ m.rtype = TYPE_OPT ∧ ∃ c2 t2, CurM.skip m.rdlen r1.cur = (.ok (), c2) ∧
-      r1.tr.sectionRead m.section_ c2.pos = .ok t2 ∧ r2 = { r1 with cur := c2, tr := t2 } := by
-  unfold Reader.optRecord Reader.assertAt at h
-  split at h
-  · simp at h
-  · rename_i hd
-    split at h
-    · rename_i hpos
-      split at h
-      · simp at h
-      · rename_i hty
-        unfold Reader.onCur at h
-        cases hk : CurM.skip m.rdlen r1.cur with
-        | mk res c2 =>
-          simp only [hk] at h
-          cases res with
-          | ok u =>
-            simp only at h
-            obtain ⟨_, t', hsr, hr2⟩ := finishData_ok_inv m _ _ r2 o h
-            exact ⟨hpos, by simpa using hd, by simpa using hty, c2, t', rfl, hsr, hr2⟩
-          | err e => simp [Reader.finishData] at h
-          | panic p => simp [Reader.finishData] at h
-          | ub => simp [Reader.finishData] at h
-    · simp at h
-
-/-- where a raw read succeeds, a skip of the same length succeeds and ends at the same place -/
-theorem skip_of_slice {msg : Bytes} {n : Nat} {c c2 : Cur} {b : Bytes} (h : CurM.slice msg n c = (.ok b, c2)) :
-    CurM.skip n c = (.ok (), c2) := by
-  simp only [CurM.slice, CurM.lift] at h
-  cases hs : Cur.slice msg c n with
-  | ok v =>
-    obtain ⟨b', c3⟩ := v
-    simp only [hs, Prod.mk.injEq, Res.ok.injEq] at h
-    unfold Cur.slice at hs
-    split at hs
-    · rename_i hfit
-      split at hs
-      · simp only [Res.ok.injEq, Prod.mk.injEq] at hs
-        simp only [Cur.fits, Bool.and_eq_true, decide_eq_true_eq] at hfit
-        have : c.len ≥ n := hfit.2
-        simp only [CurM.skip, CurM.lift0, Cur.skip, this, if_true, Prod.mk.injEq, true_and]
-        rw [← h.2, ← hs.2]
-      · simp at hs
-    · simp at hs
-  | err e => simp [hs] at h
-  | panic p => simp [hs] at h
-  | ub => simp [hs] at h
-
-/-- where a typed read succeeds, a skip of RDLENGTH succeeds and ends at the same place -/
-theorem skip_of_rdata {msg : Bytes} {t : RType} {n : Nat} {c c2 : Cur} {v : RData} (hc : Cur.OK msg c)
-    (h : readRData t msg n c = (.ok v, c2)) : CurM.skip n c = (.ok (), c2) := by
-  have hs := readRData_spec t msg n c hc
-  rw [h] at hs
-  obtain ⟨ho, hp, hl, ho2, hfit⟩ := hs
-  have : c.len ≥ n := by simp only [Cur.len]; omega
-  simp only [CurM.skip, CurM.lift0, Cur.skip, this, if_true, Prod.mk.injEq, true_and]
-  obtain ⟨l2, p2, o2⟩ := c2
-  simp only at hp hl ho2
-  subst hp; subst hl; subst ho2
-  simp [ho]
-
-/-- the four fixed-size reads of `raw_marker_impl`, spelled out -/
-theorem rawMarker_reads {msg : Bytes} {r r' : Reader} {pos s : Nat} {m : Marker}
-    (h : r.rawMarker msg pos s = (.ok m, r')) :
-    ∃ c2 c3 c4, CurM.u16be msg r.cur = (.ok m.rtype, c2) ∧ CurM.u16be msg c2 = (.ok m.rclass, c3) ∧
-      CurM.u32be msg c3 = (.ok m.ttl, c4) ∧ CurM.u16be msg c4 = (.ok m.rdlen, r'.cur) ∧
-      m.section_ = s ∧ m.offset = pos ∧ r' = { r with cur := r'.cur } := by
-  unfold Reader.rawMarker Reader.onCur at h
-  generalize hx : (do
-      let rtype ← CurM.u16be msg
-      let rclass ← CurM.u16be msg
-      let ttl ← CurM.u32be msg
-      let rdlen ← CurM.u16be msg
-      pure { offset := pos, typeOffset := r.cur.pos, rtype, rclass, ttl, rdlen, section_ := s : Marker } : CurM Marker) r.cur = x at h
-  obtain ⟨res, c⟩ := x
-  simp only [Prod.mk.injEq] at h
-  obtain ⟨hres, hr'⟩ := h
-  rw [hx] at hres hr'
-  simp only at hres hr'
-  subst hres
-  obtain ⟨v1, c2, h1, hx1⟩ := CurM.bind_ok_inv hx
-  obtain ⟨v2, c3, h2, hx2⟩ := CurM.bind_ok_inv hx1
-  obtain ⟨v3, c4, h3, hx3⟩ := CurM.bind_ok_inv hx2
-  obtain ⟨v4, c5, h4, hx4⟩ := CurM.bind_ok_inv hx3
-  simp only [pure, CurM.pure, Prod.mk.injEq, Res.ok.injEq] at hx4
-  obtain ⟨hm, hc⟩ := hx4
-  subst hm; subst hc
-  rw [← hr']
-  exact ⟨c2, c3, c4, h1, h2, h3, h4, rfl, rfl, rfl⟩
-
 /-- `record_header::<N>` succeeded: which section, which name, which marker reads -/
 theorem headerImpl_owned_inv {msg : Bytes} {k : NameKind} {r r1 : Reader} {hn : HName} {m : Marker}
     (h : r.headerImpl msg (.owned k) = (.ok (hn, m), r1)) :
@@ -671,45 +539,6 @@ theorem chain_of_readRecords (msg : Bytes) : ∀ (fuel : Nat) (r : Reader) (acc 
       exact ⟨[], by simp, fun he => by cases he⟩
 
 /-! ### questions -/
-
-theorem u16_inv' {msg : Bytes} {c c' : Cur} {v : Nat} (h : CurM.u16be msg c = (.ok v, c')) :
-    c' = { c with pos := c.pos + 2 } ∧ c.pos + 2 ≤ c.lim := by
-  simp only [CurM.u16be, CurM.lift, Cur.u16be] at h
-  cases hr : Cur.rBe msg c 2 with
-  | ok vr =>
-    obtain ⟨a, b⟩ := vr
-    simp only [hr, Prod.mk.injEq, Res.ok.injEq] at h
-    obtain ⟨_, h2, h3⟩ := rBe_inv msg c 2 a b hr
-    exact ⟨by rw [← h.2, h2], h3⟩
-  | err e => simp [hr] at h
-  | panic p => simp [hr] at h
-  | ub => simp [hr] at h
-
-/-- where an owned question is read, `skip_question` succeeds and ends at the same place -/
-theorem skipQuestion_of_read {msg : Bytes} {c c' : Cur} {q : Question} (h : readQuestion msg c = (.ok q, c')) :
-    skipQuestion msg c = (.ok (), c') := by
-  unfold readQuestion at h
-  obtain ⟨text, c1, hn, h1⟩ := CurM.bind_ok_inv h
-  obtain ⟨v1, c2, hu1, h2⟩ := CurM.bind_ok_inv h1
-  obtain ⟨v2, c3, hu2, h3⟩ := CurM.bind_ok_inv h2
-  simp only [pure, CurM.pure, Prod.mk.injEq, Res.ok.injEq] at h3
-  obtain ⟨_, rfl⟩ := h3
-  obtain ⟨e2, b2⟩ := u16_inv' hu1
-  obtain ⟨e3, b3⟩ := u16_inv' hu2
-  have hrn : readName .inline msg c = .ok (text, c1) := by
-    simp only [CurM.readName, CurM.lift] at hn
-    cases hr : readName .inline msg c with
-    | ok v => obtain ⟨a, b⟩ := v; simp only [hr, Prod.mk.injEq, Res.ok.injEq] at hn; rw [hn.1, hn.2]
-    | err e => simp [hr] at hn
-    | panic p => simp [hr] at hn
-    | ub => simp [hr] at hn
-  obtain ⟨nn, hsk⟩ := skip_of_read .inline msg c c1 text hrn
-  subst e2
-  simp only at e3 b3
-  have hlen : c1.len ≥ 4 := by simp only [Cur.len]; omega
-  unfold skipQuestion
-  simp only [bind, CurM.bind, CurM.skipName, CurM.lift, hsk, CurM.skip, CurM.lift0, Cur.skip, hlen, if_true, e3,
-    Nat.add_assoc]
 
 /-- `question()` succeeded -/
 theorem question_inv {msg : Bytes} {r r' : Reader} {qo : QOut} (h : r.question msg .question = (.ok qo, r')) :
